@@ -50,6 +50,78 @@ def bunched_case(draw, big=False):
 
 
 @st.composite
+def cancelling_case(draw, big=False):
+    """Exactly-valued interferometers (Hadamard / DFT / sign / permutation matrices, the qubit library's gates,
+    50:50 beam splitters) followed by loss on several modes, photons in two or more inputs: transition
+    amplitudes into loss modes cancel *exactly* for some inputs, which shortcuts based on "is this entry / this
+    sum zero" have to survive."""
+    n = draw(st.integers(2, 4))
+    ops = []
+    for _ in range(draw(st.integers(1, 3))):
+        k = draw(st.integers(0, 4))
+        if k == 0:
+            m = draw(st.integers(0, n - 2))
+            ops.append(["unitary", m, draw(st.sampled_from(["hadamard", "hadamard", "dft", "perm", "real"])),
+                        draw(st.integers(2, n - m)), draw(st.integers(0, 99))])
+        elif k == 1:
+            ops.append(["gate", draw(st.sampled_from(["H", "H", "X", "Y", "Z", "SX"])), {}, draw(st.integers(0, n - 2))])
+        elif k == 2 and n >= 4:
+            ops.append(["gate", "CNOT", {"target_qubit": draw(st.integers(0, 1))}, 0])
+        elif k == 3:
+            m1 = draw(st.integers(0, n - 1))
+            m2 = (m1 + draw(st.integers(1, n - 1))) % n
+            ops.append(["bs", m1, m2, 0.5, draw(st.sampled_from(["Rx", "H"])), 0])
+        else:
+            ops.append(["ps", draw(st.integers(0, n - 1)), draw(st.sampled_from([0.0, math.pi, math.pi / 2])), 0])
+    for m in draw(st.lists(st.integers(0, n - 1), unique=True, min_size=1, max_size=n)):
+        ops.append(["loss", m, draw(st.sampled_from([0.3, 0.5, 0.1, 0.9]))])
+    if draw(st.integers(0, 3)) == 0:
+        ops.append(["unitary", 0, "hadamard", n, 0])
+    prog = {"n": n, "ops": ops}
+    extra = 2 * sum(1 for o in ops if o[0] == "gate" and o[1] == "CNOT")
+    occ = draw(st.lists(st.sampled_from([1, 1, 0, 2]), min_size=n, max_size=n))
+    if sum(1 for x in occ if x) < 2:
+        occ[0], occ[1] = 1, 1
+    nl = sum(1 for o in ops if o[0] == "loss")
+    while math.comb(n + extra + nl + sum(occ) - 1, sum(occ)) > (30000 if big else 12000):
+        i = max(range(n), key=lambda j: occ[j])
+        occ[i] -= 1
+    return {"prog": prog, "input": occ}
+
+
+@st.composite
+def routing_case(draw):
+    """Circuits that only route photons: mode swaps (cycles of length >= 3 as often as exchanges), permutation
+    blocks, phase shifters, barriers, loss elements with loss exactly 0, heralds; any input."""
+    n = draw(st.integers(2, 6))
+    ops = []
+    for _ in range(draw(st.integers(1, 5))):
+        k = draw(st.integers(0, 7))
+        if k <= 2:
+            keys = draw(st.lists(st.integers(0, n - 1), unique=True, min_size=min(3, n), max_size=n))
+            sh = draw(st.integers(1, len(keys) - 1)) if len(keys) > 1 else 0
+            ops.append(["swaps", [[keys[i], keys[(i + sh) % len(keys)]] for i in range(len(keys))]])
+        elif k == 3:
+            ops.append(draw(gen.op_swaps(n)))
+        elif k == 4:
+            ops.append(draw(gen.op_unitary(n, kinds=["perm", "permphase", "identity", "diag"])))
+        elif k == 5:
+            ops.append(["ps", draw(st.integers(0, n - 1)), draw(gen.phase), 0])
+        elif k == 6:
+            ops.append(["loss", draw(st.integers(0, n - 1)), 0])
+        else:
+            ops.append(draw(gen.op_barrier(n)))
+    nh = 0
+    if n >= 3 and draw(st.integers(0, 2)) == 0:
+        i = draw(st.integers(0, n - 1))
+        ops.insert(draw(st.integers(0, len(ops))), ["herald", draw(st.integers(0, 2)), i,
+                                                    draw(st.one_of(st.none(), st.integers(0, n - 1)))])
+        nh = 1
+    prog = {"n": n, "ops": ops}
+    return {"prog": prog, "input": draw(gen.fock_state(n - nh, draw(st.integers(0, 4))))}
+
+
+@st.composite
 def reuse_case(draw):
     """One long-lived Sampler; the circuit object is edited between reads."""
     base = draw(dist_case())
@@ -332,6 +404,8 @@ def subs(tier):
     return [
         Sub("sampler-distribution", run_dist, strategy=dist_case(big=not q), examples=70 if q else 600),
         Sub("bunched", run_dist, strategy=bunched_case(big=not q), examples=40 if q else 1500),
+        Sub("cancelling-amplitudes", run_dist, strategy=cancelling_case(big=not q), examples=40 if q else 1500),
+        Sub("routing-only", run_dist, strategy=routing_case(), examples=60 if q else 3000),
         Sub("edit-between-reads", run_reuse, strategy=reuse_case(), examples=50 if q else 600),
         Sub("many-photons-two-modes", run_two_mode, strategy=two_mode_case(big=not q), examples=25 if q else 400),
         Sub("many-loss-elements", run_many_loss, strategy=many_loss_case(), examples=5 if q else 100),
